@@ -30,10 +30,10 @@ RowOf(st, t, k) == IF k \in DOMAIN st.tables[t].rows THEN st.tables[t].rows[k] E
 
 \* store row r under key k (removing the key when r has no cell)
 PutRow(rows, k, r) ==
-  IF r = NoRow THEN [x \in (DOMAIN rows) \ {k} |-> rows[x]]
-  ELSE [x \in (DOMAIN rows) \cup {k} |-> IF x = k THEN r ELSE rows[x]]
+  IF r = NoRow THEN TLCEval([x \in (DOMAIN rows) \ {k} |-> rows[x]])
+  ELSE TLCEval([x \in (DOMAIN rows) \cup {k} |-> IF x = k THEN r ELSE rows[x]])
 
-WithRows(st, t, rows) == [st EXCEPT !.tables[t].rows = rows]
+WithRows(st, t, rows) == TLCEval([st EXCEPT !.tables[t].rows = rows])
 WithRow(st, t, k, r)  == WithRows(st, t, PutRow(st.tables[t].rows, k, r))
 
 Out(s, r) == [st |-> s, resp |-> r]
